@@ -308,7 +308,7 @@ class Verifier:
         return out
 
     def run_path(self, c, fr, run, relpath, qual, fnode, ci):
-        I = self.make_interp(c, fr, run, qual)
+        I = self.make_interp(c, fr, run, qual + (f"#{c.variant}" if getattr(c, 'variant', None) else ""))
         frame_locals = {}
         selfv = None
         if ci is not None and fnode.args.args and fnode.args.args[0].arg == "self":
